@@ -124,6 +124,22 @@ def spell(text, variant=0):
     return "BASE <http://example.org/dir/doc>\nPREFIX x: <urn:e:>\n" + text.replace("<urn:e:p>", "x:p").replace("<urn:e:b>", "x:b")
 
 
+def minus_can_have_disjoint_domain(group, depth=0):
+    """input predicate of C15-initBindings-seen-by-MINUS: the pushed binding only matters to a MINUS whose right side may share no
+    bound variable with the solution it is subtracted from (then the extra variable makes the domains intersect). A MINUS whose
+    right side mentions a variable that every left solution certainly binds is unaffected."""
+    acc = set()
+    for i, e in enumerate(group[1]):
+        k = e[0]
+        if k == "minus":
+            if depth > 0 or not (Q.certain(e[1]) & acc): return True
+            if "minus" in Q.features(e[1]): return True
+        elif k in ("optional", "group", "union", "graph", "subselect"):
+            if "minus" in Q.features(e): return True     # nested: the left context is not tracked, stay conservative
+        acc |= Q.certain(["group", [e]])
+    return False
+
+
 # ------------------------------------------------------------------ case generation
 def gen_case(rng):
     gen = Q.Gen(rng, dataset=False, rich=rng.random() < 0.3)
@@ -200,7 +216,7 @@ def run_case(case, st=None):
             nested = set()
             for e in where[1]:
                 if e[0] != "bgp": nested |= Q.all_vars(e)
-            if not case.get("no_carve") and "minus" in Q.features(where):
+            if not case.get("no_carve") and minus_can_have_disjoint_domain(where):
                 # listed finding: initBindings are pushed into every sub-evaluation, so a MINUS sees them in its left domain
                 st.setdefault("_known", {})["C15-initBindings-seen-by-MINUS"] = 1; return None
             cands = sorted(top_bgp_vars - nested)
